@@ -146,7 +146,11 @@ impl<K: Send, V: Send + Sync, H> CacheShared<K, V, H> {
 
     match loader {
       Loader::Sync(sync_loader) => {
+        #[cfg(excsn_fibre_verif)]
+        let verif_child = crate::verif::spawn_announce();
         thread::spawn(move || {
+          #[cfg(excsn_fibre_verif)]
+          let _verif_child = crate::verif::ChildGuard::enter(verif_child);
           let (value, cost) = sync_loader(key.clone());
           let new_cache_entry = Arc::new(CacheEntry::new(
             value,
